@@ -107,10 +107,27 @@ impl Property for C13 {
         200
     }
     fn strategy(&self, _tier: Tier) -> BoxedStrategy<Input> {
-        (hist_strategy(COMMON_TYPES, V2_STORAGES, op_mix(), 12, 0), prop::collection::vec(0u16..40, 3..6))
-            .prop_map(|(mut hist, probes)| {
+        (
+            hist_strategy(COMMON_TYPES, V2_STORAGES, op_mix(), 9, 0),
+            prop::collection::vec(0u16..40, 3..6),
+            // a guaranteed core: small fragments, an index, a partial delete, then a compaction
+            (op_append(), op_create_index(), op_delete(), prop_oneof![op_compact(), op_compact_tasks()], any::<bool>()),
+        )
+            .prop_map(|(mut hist, probes, (app, idx, del, comp, core_first))| {
                 if hist.init_file_rows > 6 {
                     hist.init_file_rows = 3;
+                }
+                let app = match app {
+                    Op::Append { rows, splits, .. } => Op::Append { rows, splits, max_rows_per_file: 3 },
+                    o => o,
+                };
+                let core: Vec<Step> = [app, idx, del, comp].into_iter().map(|op| Step { op, stale: None }).collect();
+                if core_first {
+                    let mut steps = core;
+                    steps.extend(hist.steps.drain(..));
+                    hist.steps = steps;
+                } else {
+                    hist.steps.extend(core);
                 }
                 Input { hist, probes }
             })
